@@ -7,7 +7,7 @@ from typing import List, Optional, Set
 from fdlstatic import cfg as cfg_lib
 from fdlstatic.ctx import Ctx, kwarg
 from fdlstatic.model import AnalysisError, FuncInfo, unparse, walk_function, walk_stmts
-from fdlstatic import roles
+from fdlstatic import noneness, roles
 from fdlstatic.report import RuleSet
 from fdlstatic.rules import c14
 
@@ -77,6 +77,53 @@ def implicit_none_paths(ctx: Ctx, f: FuncInfo) -> Optional[List[str]]:
   if bare:
     return [g.describe(bare[0])]
   return []
+
+
+def _from_tags(f: FuncInfo, name: str, depth: int = 0) -> bool:
+  """`name` iterates (transitively) over an __argument_tags__ mapping."""
+  if depth > 4:
+    return False
+  for n in ast.walk(f.node):
+    it = tg = None
+    if isinstance(n, (ast.For, ast.comprehension)):
+      it, tg = n.iter, n.target
+    elif isinstance(n, ast.Assign) and len(n.targets) == 1:
+      it, tg = n.value, n.targets[0]
+    if it is None or name not in {x.id for x in ast.walk(tg)
+                                   if isinstance(x, ast.Name)}:
+      continue
+    if any(isinstance(x, ast.Attribute) and x.attr == '__argument_tags__'
+           for x in ast.walk(it)):
+      return True
+    for x in ast.walk(it):
+      if isinstance(x, ast.Name) and x.id != name and _from_tags(
+          f, x.id, depth + 1):
+        return True
+  return False
+
+
+def _import_categories(ctx: Ctx, f: FuncInfo) -> Set[str]:
+  """Kinds of objects handed to the import manager in `f`."""
+  out: Set[str] = set()
+  for c in ast.walk(f.node):
+    if not (isinstance(c, ast.Call) and c.args):
+      continue
+    fn = unparse(c.func)
+    if not (fn.endswith('import_manager.add') or
+            fn.endswith('import_manager_wrapper.add')):
+      continue
+    a = c.args[0]
+    if isinstance(a, ast.Call) and unparse(a.func) == 'type':
+      out.add('buildable-type')
+    elif 'get_callable(' in unparse(a):
+      out.add('callable')
+    elif isinstance(a, ast.Name) and _from_tags(f, a.id):
+      out.add('tag')
+    elif isinstance(a, ast.Name):
+      out.add('symbol')
+    else:
+      out.add('other')
+  return out
 
 
 def _scope_chain(ctx: Ctx, f: FuncInfo):
@@ -193,6 +240,76 @@ def run(ctx: Ctx, rs: RuleSet, tier: str):
                  'repr of a non-finite value (inf, -inf, nan) is a name, not '
                  'a literal: the emitted expression raises NameError or '
                  'picks up an unrelated variable'), ctx.loc(f, f.node))
+
+  # ---- slice(...) expressions: exact for every None-ness of start/stop/step
+  rule = 'LIT.slice-arguments'
+  rs.declare(rule, 'the slice converter emits a slice(...) call equal to the '
+             'value for all 8 combinations of None / non-None start, stop, '
+             'step', 8)
+  sf = ctx.func(f'{PV}._convert_slice')
+  vp, cf = sf.params[0], sf.params[1]
+  attrs = ['start', 'stop', 'step']
+  for case in noneness.cases(attrs):
+    it = noneness.Interp(vp, attrs, case)
+    label = ','.join(f'{a}={"None" if case[a] else "set"}' for a in attrs)
+    try:
+      ret = it.run(sf.node.body)
+      if not (isinstance(ret, ast.Call) and unparse(ret.func) == 'cst.Call'):
+        raise noneness.Unsupported('the converter does not return cst.Call(...)')
+      fn = kwarg(ret, 'func') or (ret.args[0] if ret.args else None)
+      is_slice = (isinstance(fn, ast.Call) and unparse(fn.func) == 'cst.Name'
+                  and fn.args and isinstance(fn.args[0], ast.Constant) and
+                  fn.args[0].value == 'slice')
+      args_e = kwarg(ret, 'args') or (ret.args[1] if len(ret.args) > 1 else None)
+      emitted = []
+
+      def _arg_value(a, env_extra=None):
+        # cst.Arg(conversion_fn(<expr>))
+        if not (isinstance(a, ast.Call) and unparse(a.func) == 'cst.Arg' and
+                a.args and isinstance(a.args[0], ast.Call) and
+                unparse(a.args[0].func) == cf and len(a.args[0].args) == 1):
+          raise noneness.Unsupported(f'argument `{unparse(a)[:50]}`')
+        return a.args[0].args[0]
+
+      if isinstance(args_e, ast.List):
+        emitted = [it.ev(_arg_value(a)) for a in args_e.elts]
+      elif isinstance(args_e, ast.ListComp) and len(
+          args_e.generators) == 1 and not args_e.generators[0].ifs and isinstance(
+              args_e.generators[0].target, ast.Name):
+        tv = args_e.generators[0].target.id
+        for x in it.ev(args_e.generators[0].iter):
+          it.env[tv] = x
+          emitted.append(it.ev(_arg_value(args_e.elt)))
+      else:
+        raise noneness.Unsupported('args= is neither a list nor a '
+                                   'comprehension over a list')
+    except noneness.Unsupported as e:
+      raise AnalysisError(f'_convert_slice cannot be interpreted: {e}')
+    # what slice(*emitted) denotes
+    if len(emitted) == 1:
+      denotes = [None, emitted[0], None]
+    elif len(emitted) == 2:
+      denotes = [emitted[0], emitted[1], None]
+    elif len(emitted) == 3:
+      denotes = list(emitted)
+    else:
+      denotes = None
+    want = [it.atoms[a] for a in attrs]
+
+    def same(d, w):
+      if d is None:
+        return w.is_none
+      return isinstance(d, noneness.Atom) and d is w
+    ok = is_slice and denotes is not None and all(
+        same(d, w) for d, w in zip(denotes, want))
+    rs.check(ok, rule, f'{sf.qualname}:{label}',
+             f'emits slice({", ".join(map(repr, emitted))})' if ok else
+             f'for a slice with {label} the converter emits '
+             f'slice({", ".join(a.name if isinstance(a, noneness.Atom) else repr(a) for a in emitted)}), '
+             f'which Python reads as start={denotes[0] if denotes else "?"}, '
+             f'stop={denotes[1] if denotes else "?"}, '
+             f'step={denotes[2] if denotes else "?"}: not the value it was '
+             'given', ctx.loc(sf, sf.node))
 
   # ---- EXH: loud defaults
   rule = 'EXH.loud-codegen'
@@ -450,6 +567,28 @@ def run(ctx: Ctx, rs: RuleSet, tier: str):
              'the pass that turns Buildables into calls reads their argument '
              'tags' if reads else 'argument tags are never read: the emitted '
              'code silently drops them', ctx.loc(f, f.node))
+
+  # ---- imports are reserved before names are handed out
+  rule = 'AGREE.import-prepass'
+  rs.declare(rule, 'every kind of symbol the emitting pass imports was '
+             'already imported by the early import_symbols pass (variable '
+             'names are allocated in between and must avoid module aliases)',
+             2)
+  for modq in (f'{AC}.make_symbolic_references',
+               f'{CG}.newcg_symbolic_references'):
+    pre = ctx.func(f'{modq}.import_symbols')
+    emit = ctx.func(f'{modq}.replace_callables_and_configs_with_symbols.traverse')
+    cp, ce = _import_categories(ctx, pre), _import_categories(ctx, emit)
+    missing = sorted(ce - cp - {'other'})
+    rs.check(not missing and bool(ce), rule, f'{modq}:categories',
+             f'emitting pass imports {sorted(ce)}; pre-pass imports '
+             f'{sorted(cp)}' if not missing else
+             f'the emitting pass imports {missing} symbols that the early '
+             'import_symbols pass does not: their module alias is only '
+             'reserved after the naming passes ran, so an extracted variable '
+             'can take the name of that module and shadow it in the generated '
+             'function (AttributeError / wrong object when executed)',
+             ctx.loc(pre, pre.node))
 
   # ---- references to classes / functions use the qualified name
   rule = 'LIT.qualified-reference'
